@@ -15,7 +15,7 @@ func init() {
 }
 
 func rulesC04(c *Ctx, r *Report) {
-	r.explain("Decides: (G4a) for every N in 3..12 separately, the writes of BED.Write that are enabled under N (integer-partition dataflow on b.N) print exactly the first N struct fields in declaration order, separated by exactly N-1 TABs, list elements joined by ',', and end with one newline; under N < 3 or N > 12 no write is enabled and the only return carries a non-nil error; (G4b) in parseLine every struct field receives a value whose backward data slice contains exactly its own column of the padded field slice, N receives len(fields), and the accepting return is reachable only with 3..12 fields; (FMT-CONST) all formats are constants; (A4) no function reachable from the BED reader calls encoding/csv's Reader (the writer emits raw text, a reader that un-quotes cannot return fields containing '\"' verbatim); (LINE-WHOLE) lines are obtained whole (no ReadLine with a discarded isPrefix); (G1) MarshalText = Write; (PASS-ALL) Reader hands on every record. Not decided: value equality of the round trip; integer formatting (strconv); block-list/count consistency. Added rules: refusal for every representative N outside 3..12 (0 and negatives included); (G4b guard) the emptiness test that controls an optional field is on the field's own column; (G4b RGB) exactly 0..255 reaches ItemRGB; (BED-SKIP) only whole-line emptiness/'#' tests, the read error and the field count decide whether a line is parsed; (G5) line trimming chain; (NUM-WIDTH); (A6-SCHED). Entry points (shared with C06/C18, restricted to this package): (FD) File(path) opens path with aio.Open inside the iterator, yields the open error and otherwise ranges over Reader on the opened bytes, so each pass re-reads the file; (A6); (NIL-HANDLE).")
+	r.explain("Decides: (G4a) for every N in 3..12 separately, the writes of BED.Write that are enabled under N (integer-partition dataflow on b.N) print exactly the first N struct fields in declaration order, separated by exactly N-1 TABs, list elements joined by ',', and end with one newline; under N < 3 or N > 12 no write is enabled and the only return carries a non-nil error; (G4b) in parseLine every struct field receives a value whose backward data slice contains exactly its own column of the padded field slice, N receives len(fields), and the accepting return is reachable only with 3..12 fields; (FMT-CONST) all formats are constants; (A4) no function reachable from the BED reader calls encoding/csv's Reader (the writer emits raw text, a reader that un-quotes cannot return fields containing '\"' verbatim); (LINE-WHOLE) lines are obtained whole (no ReadLine with a discarded isPrefix); (G1) MarshalText = Write; (PASS-ALL) Reader hands on every record. Not decided: value equality of the round trip; integer formatting (strconv); block-list/count consistency. Added rules: refusal for every representative N outside 3..12 (0 and negatives included); (G4b guard) the emptiness test that controls an optional field is on the field's own column; (G4b RGB) exactly 0..255 reaches ItemRGB; (BED-SKIP) only whole-line emptiness/'#' tests, the read error and the field count decide whether a line is parsed; (G5) line trimming chain; (NUM-WIDTH); (A6-SCHED). Entry points (shared with C06/C18, restricted to this package): (FD) File(path) opens path with aio.Open inside the iterator, yields the open error and otherwise ranges over Reader on the opened bytes, so each pass re-reads the file; (A6); (NIL-HANDLE). (NUM-KIND) no float-to-integer conversion in the package (an integer column parsed through a float loses values beyond 2^53); (W-ERR) every error Write returns is nil, the error of a call that was handed the writer, or the documented refusal N outside 3..12, on every path to the constructor (all-paths form, so `N < 3 || N > 12` counts); (LAYER).")
 	r.assume("fmt's %v prints ints, bytes and strings in a form strconv/ParseUint read back; struct declaration order is the BED column order")
 	ruleG1(c, r, "formats/bed", "BED")
 	rulesBedWriterLadder(c, r)
